@@ -334,3 +334,18 @@ Section Roundtrip.
     option_map f (s_deserialize dec_meta (s_serialize enc_meta s)) = Some (f s).
   Proof. intros. erewrite codec_roundtrip; eauto. Qed.
 End Roundtrip.
+
+(* reflection of the bounds *)
+Lemma boundedb_bounded : forall lvl n, sn_boundedb lvl n = true -> bounded lvl n.
+Proof.
+  induction lvl as [|l IH]; intros [t p s w ch] H; cbn [sn_boundedb bounded] in *.
+  - repeat (apply andb_prop in H; destruct H as [H ?]). repeat split; try lia.
+  - apply andb_prop in H. destruct H as [H Hc].
+    repeat (apply andb_prop in H; destruct H as [H ?]). repeat split; try lia.
+    unfold oall. apply Forall_forall. intros o Ho. rewrite forallb_forall in Hc. specialize (Hc o Ho).
+    destruct o; [apply IH; exact Hc|exact I].
+Qed.
+Definition seg_boundedb (s : segment) : bool :=
+  match s_root s with Some (lvl, n) => sn_boundedb lvl n | None => true end.
+Lemma seg_boundedb_bounded s : seg_boundedb s = true -> seg_bounded s.
+Proof. unfold seg_boundedb, seg_bounded. destruct (s_root s) as [[l n]|]; [apply boundedb_bounded|auto]. Qed.
